@@ -461,6 +461,15 @@ def fix_unconventional_class_definitions(source: str) -> str:
             for node in core.filter_nodes(
                 classdef.body, (ast.FunctionDef, ast.AsyncFunctionDef, ast.ClassDef)
         ))
+        # Code that runs later reads the class through its global name, which is not bound yet
+        # while the class body runs: a call in the class body must not get there.
+        class_read_in_functions = any(
+            name.id == classdef.name
+            for scope in core.walk(
+                root, (ast.FunctionDef, ast.AsyncFunctionDef, ast.Lambda)
+            )
+            for name in core.walk(scope, ast.Name)
+        )
         for assign, *_ in assign_matches:
             attr = assign.targets[0].attr
             if attr.startswith("__") and not attr.endswith("__"):
@@ -470,6 +479,8 @@ def fix_unconventional_class_definitions(source: str) -> str:
                 # __hash__, __slots__ changes the layout, __init_subclass__ becomes a classmethod
                 break
             if file_defines_set_name and any(core.walk(assign.value, ast.Call)):
+                break
+            if class_read_in_functions and any(core.walk(assign.value, ast.Call)):
                 break
             if any(name.id in class_body_names for name in core.walk(assign.value, ast.Name)):
                 break
